@@ -191,9 +191,16 @@ def replay(u, histories, tag):
         for line in open(out):
             o = json.loads(line)
             obs[o["hid"]] = o
-            for st in o["steps"]:
+            # an environment step that cannot be applied (e.g. moving aside a file that is not there): the code has
+            # already left the predicted course; the history is judged up to that step (nothing before it failing to
+            # be flagged is a tool error, see run_slice)
+            for k_, st in enumerate(o["steps"]):
                 if st["ret"].startswith("FsErr"):
-                    raise ToolError("the harness could not apply a file-system step of history %s: %s" % (o["hid"], st["ret"]))
+                    if k_ == 0:
+                        raise ToolError("the harness could not apply the first file-system step of history %s: %s" % (o["hid"], st["ret"]))
+                    o["cut"] = st["ret"]
+                    o["steps"] = o["steps"][:k_]
+                    break
         blobs.update(json.load(open(bl)))
         os.remove(out)
         os.remove(bl)
